@@ -184,7 +184,7 @@ pub fn c14(tier: Tier, seed: u64) -> i32 {
     let acc = run_histories(
         seed,
         per_shard,
-        move |_r| HistCfg { ops: 140, pools: 2, spl_only: true, allow_adaptive: true, all_adaptive: true, spacings: vec![1, 8, 64, 128, 256], w_swap: 58, w_two_hop: 6, w_liq: 18, w_fees: 2, w_lifecycle: 2, w_clock: 14, w_setters: 1, ..Default::default() },
+        move |_r| HistCfg { ops: 140, pools: 2, spl_only: true, allow_adaptive: true, all_adaptive: true, spacings: vec![1, 8, 64, 128, 256], w_swap: 58, w_two_hop: 6, w_liq: 18, w_fees: 2, w_lifecycle: 2, w_clock: 14, w_setters: 1, w_burst: 1, ..Default::default() },
         || vec![Box::new(C14) as Box<dyn Monitor>],
     );
     rep.acc = acc;
@@ -198,6 +198,7 @@ pub fn c14(tier: Tier, seed: u64) -> i32 {
     rep.floor("minor_swaps", 300);
     rep.floor("swaps_in_saturated_range", 100);
     rep.floor("swaps_before_trade_enable", 30);
+    rep.floor("reference_class_reset_masked_by_major_swap", 20);
     rep.finish()
 }
 
